@@ -22,7 +22,8 @@ EXPLANATION = (
     "points of both crates is discharged: input-independent, locally guarded by a must-fact, or covered by a reviewed "
     "invariant row whose machine-checkable requirement still holds; (V3) every raw read of the receive buffer is "
     "dominated by a sufficient length fact, using the tie size == buf.len() established in the dispatch."
-    ' Also: (V1) received-file COUNT classes (none / 0 / 1 / >= 2) under the must-facts of each accepting path of the vring-fd helper and of take_single_file; (V4) validator exactness for the decoded body types (C20/X2).')
+    ' Also: (V1) received-file COUNT classes (none / 0 / 1 / >= 2) under the must-facts of each accepting path of the vring-fd helper and of take_single_file; (V4) validator exactness for the decoded body types (C20/X2).'
+    " Round 4/5: (V1) the attached-file policy accepts the optional-descriptor requests without a descriptor; SET_VRING_ENABLE's flag is decided by cases (num bounded at the call, flag evaluated per value); every way back to the region loop head carries is_valid(element); (V5) every receive iovec's iov_len is the extent of the buffer iov_base points into.")
 NOT_DECIDED = ("Panics inside third-party crates (vm-memory, virtio-queue, vmm-sys-util, std) called with wire-derived values "
                "(listed as assumptions); stack/heap exhaustion; aborts.")
 
@@ -251,6 +252,10 @@ def mem_table_facts(fb, f, bb, atoms):
         args = m.sym.arg_terms(sb)
         nxt_calls = [s for s in subterms(args[0]) if s[0] == "call" and s[1] == "next"]
         if not nxt_calls:
+            continue
+        # the traversal covers every region: no element is skipped or the list shortened
+        if any(s[0] == "call" and s[1] in ("skip", "take", "step_by", "skip_while", "take_while", "filter", "rev") for s in subterms(nxt_calls[0])) \
+                and any(s[0] == "call" and s[1] in ("skip", "take", "step_by", "skip_while", "take_while", "filter") for s in subterms(nxt_calls[0])):
             continue
         nb = nxt_calls[0][3]
         if not isinstance(nb, int) or not cfg.all_paths_pass_through(sb, {bb}, {nb}):
@@ -519,7 +524,7 @@ def v5(fb, chk, tag=""):
             for st in b["stmts"]:
                 if not (st["k"] == "assign" and st["rv"]["k"] == "agg" and st["rv"].get("ak") == "adt" and st["rv"]["adt"].endswith("iovec")):
                     continue
-                sym = sym or Sym(f, fb)
+                sym = Sym(f, fb)     # fresh per aggregate (loop-carried offsets)
                 v = sym.rvalue(st["rv"])
                 flds = dict(v[3])
                 base, ln = flds.get("iov_base"), flds.get("iov_len")
